@@ -55,6 +55,29 @@ pub enum Action {
     Expire { at: i64 },
     /// an editing session on task t through the high-level Task API, clock reading EPOCH0+at (C19)
     Edit { t: u8, at: i64, muts: Vec<crate::taskmodel::Mut> },
+    /// a raw protocol call on this node's server handle (C08)
+    Srv { call: SrvCall },
+}
+
+#[derive(Serialize, Deserialize, Clone, Debug, PartialEq)]
+pub enum VRef {
+    Nil,
+    Latest,
+    /// the i-th (mod length) version of the chain
+    Chain(u8),
+    /// an id nobody has seen
+    Unknown(u8),
+}
+
+#[derive(Serialize, Deserialize, Clone, Debug, PartialEq)]
+pub enum SrvCall {
+    /// payload kinds: 0 empty, 1 short text, 2 bytes that are not UTF-8, 3 one megabyte, 4 all byte values
+    Add { parent: VRef, payload: u8 },
+    GetChild { parent: VRef },
+    AddSnapshot { version: VRef, payload: u8 },
+    GetSnapshot,
+    /// drop the handle and open a new one
+    Reopen,
 }
 
 #[derive(Serialize, Deserialize, Clone, Debug, PartialEq)]
@@ -105,6 +128,13 @@ pub struct Scenario {
     /// which the action is repeated in a victim process that is really SIGKILLed
     #[serde(default)]
     pub kill_budget: u32,
+    /// sweeps: interrupt at most this many of the enumerated points (seeded sample); 0 = all
+    #[serde(default)]
+    pub sweep_max: u32,
+    /// 0: reference server; 1 local, 2 object store, 3 git local-only, 4 git with bare remote,
+    /// 5 HTTP client: the real backend behind a model-checking proxy (family D)
+    #[serde(default)]
+    pub backend: u8,
 }
 
 pub fn task_uuid(t: u8) -> Uuid {
@@ -162,6 +192,7 @@ pub(crate) struct World {
     pub(crate) stores: Vec<StoreRef>,
     /// root of this run's on-disk stores (removed when the last world of the run is dropped)
     pub(crate) root: Option<Rc<crate::fam_c::DirGuard>>,
+    pub(crate) backend: Option<Rc<crate::fam_d::BackendEnv>>,
     dir_counter: Rc<std::cell::Cell<u64>>,
     server: Rc<RefCell<ServerWorld>>,
     pc: Vec<usize>,
@@ -911,10 +942,99 @@ fn post_check(n: usize, w: &Rc<RefCell<World>>, why: &str) {
     }
 }
 
+/// This node's server handle: the reference server, or the real backend behind the proxy.
+async fn open_server(w: &Rc<RefCell<World>>, n: usize) -> Result<Box<dyn Server>, taskchampion::Error> {
+    let (srv, backend, strict) = {
+        let wb = w.borrow();
+        (wb.server.clone(), wb.backend.clone(), wb.sc.atomic_sync)
+    };
+    match backend {
+        None => Ok(Box::new(SimServer { node: n, world: srv })),
+        Some(b) => {
+            let inner = b.open(n).await?;
+            Ok(Box::new(crate::fam_d::ProxyServer { inner, node: n, world: srv, strict, backend: b.kind }))
+        }
+    }
+}
+
+fn payload_of(kind: u8, n: usize, a: usize) -> Vec<u8> {
+    match kind % 5 {
+        0 => vec![],
+        1 => format!("payload n{n} a{a}").into_bytes(),
+        2 => vec![0xff, 0xfe, 0x00, b'x', 0x80, n as u8, a as u8],
+        3 => {
+            let mut v = format!("big n{n} a{a} ").into_bytes();
+            v.resize(1_000_000, b'z');
+            v
+        }
+        _ => (0..=255u8).chain([n as u8, a as u8]).collect(),
+    }
+}
+
+fn resolve_vref(w: &World, r: &VRef) -> Uuid {
+    let sw = w.server.borrow();
+    match r {
+        VRef::Nil => Uuid::nil(),
+        VRef::Latest => sw.chain.latest,
+        VRef::Chain(i) => {
+            if sw.chain.versions.is_empty() {
+                Uuid::nil()
+            } else {
+                sw.chain.versions[*i as usize % sw.chain.versions.len()].id
+            }
+        }
+        VRef::Unknown(k) => Uuid::from_u128(0x0bad_0000_0000_4000_8000_000000000000u128 + *k as u128),
+    }
+}
+
+async fn do_srv(n: usize, a: usize, w: &Rc<RefCell<World>>, server: &mut Box<dyn Server>, call: &SrvCall) {
+    let f0 = fired_total();
+    let res: Result<String, taskchampion::Error> = match call {
+        SrvCall::Add { parent, payload } => {
+            let p = resolve_vref(&w.borrow(), parent);
+            server.add_version(p, payload_of(*payload, n, a)).await.map(|r| format!("{:?}", r.0))
+        }
+        SrvCall::GetChild { parent } => {
+            let p = resolve_vref(&w.borrow(), parent);
+            server.get_child_version(p).await.map(|r| match r {
+                taskchampion::server::GetVersionResult::Version { version_id, .. } => format!("Version({version_id})"),
+                _ => "NoSuchVersion".into(),
+            })
+        }
+        SrvCall::AddSnapshot { version, payload } => {
+            let v = resolve_vref(&w.borrow(), version);
+            if v.is_nil() {
+                return;
+            }
+            server.add_snapshot(v, payload_of(*payload, n, a)).await.map(|_| "ok".into())
+        }
+        SrvCall::GetSnapshot => server.get_snapshot().await.map(|r| format!("{:?}", r.map(|x| x.0))),
+        SrvCall::Reopen => match open_server(w, n).await {
+            Ok(s) => {
+                *server = s;
+                w.borrow_mut().probe("srv.reopened");
+                Ok("reopened".into())
+            }
+            Err(e) => Err(e),
+        },
+    };
+    let faulted = fired_total() > f0;
+    let mut wb = w.borrow_mut();
+    if let Err(e) = &res {
+        if !faulted {
+            wb.violation("protocol.error", "unexpected-error", format!("node {n} action {a}: {call:?} failed without an injected fault: {e:#}"));
+        }
+    }
+    wb.probe("srv.raw_calls");
+    wb.log(|| format!("n{n} a{a} {call:?} -> {:?}", res.as_ref().map_err(|e| format!("{e:#}"))));
+}
+
 fn make_node(n: usize, w: Rc<RefCell<World>>) -> NodeFut {
     Box::pin(async move {
         let store = w.borrow().stores[n].clone();
         let srv = w.borrow().server.clone();
+        // opening the handles is not part of any action (fault plans address actions)
+        begin_action(usize::MAX);
         let storage = match simstorage::open_sim(&store, false).await {
             Ok(s) => s,
             Err(e) => {
@@ -926,7 +1046,17 @@ fn make_node(n: usize, w: Rc<RefCell<World>>) -> NodeFut {
             }
         };
         let mut replica = Replica::new(storage);
-        let mut server: Box<dyn Server> = Box::new(SimServer { node: n, world: srv });
+        let _ = srv;
+        let mut server: Box<dyn Server> = match open_server(&w, n).await {
+            Ok(s) => s,
+            Err(e) => {
+                w.borrow_mut().violation("server.open", "node-start", format!("node {n}: cannot open its server handle: {e:#}"));
+                let mut wb = w.borrow_mut();
+                let len = wb.sc.scripts[n].len();
+                wb.pc[n] = len;
+                return;
+            }
+        };
         loop {
             let (a, action) = {
                 let mut wb = w.borrow_mut();
@@ -954,6 +1084,7 @@ fn make_node(n: usize, w: Rc<RefCell<World>>) -> NodeFut {
                 Action::Rebuild { renumber } => do_rebuild(n, a, &w, &mut replica, *renumber).await,
                 Action::Expire { at } => do_expire(n, a, &w, &mut replica, *at).await,
                 Action::Edit { t, at, muts } => crate::taskmodel::do_edit(n, a, &w, &mut replica, *t, *at, muts).await,
+                Action::Srv { call } => do_srv(n, a, &w, &mut server, call).await,
             }
             post_check(n, &w, &format!("action {a}"));
         }
@@ -984,12 +1115,24 @@ fn new_world(sc: &Scenario, want_log: bool) -> W {
     let n = sc.nodes;
     let start_ns = EPOCH0 * 1_000_000_000;
     interpose::set_now_ns(start_ns);
-    let root = if sc.sqlite { Some(Rc::new(crate::fam_c::DirGuard(crate::fam_c::run_dir(&sc.check, sc.seed)))) } else { None };
+    let root = if sc.sqlite || sc.backend != 0 { Some(Rc::new(crate::fam_c::DirGuard(crate::fam_c::run_dir(&sc.check, sc.seed)))) } else { None };
+    let backend = if sc.backend != 0 { Some(Rc::new(crate::fam_d::BackendEnv::new(sc.backend, &root.as_ref().unwrap().0.join("backend"), sc.seed))) } else { None };
+    if let Some(b) = &backend {
+        let _ = std::fs::create_dir_all(&b.root);
+    }
+    let raw_calls = sc.scripts.iter().flatten().any(|a| matches!(a, Action::Srv { .. }));
     Rc::new(RefCell::new(World {
-        stores: (0..n).map(|i| if let Some(r) = &root { let d = r.0.join(format!("n{i}")); let _ = std::fs::create_dir_all(&d); StoreRef::Sqlite(d) } else { StoreRef::Mem(simstorage::new_mem()) }).collect(),
+        backend,
+        stores: (0..n).map(|i| if let (Some(r), true) = (&root, sc.sqlite) { let d = r.0.join(format!("n{i}")); let _ = std::fs::create_dir_all(&d); StoreRef::Sqlite(d) } else { StoreRef::Mem(simstorage::new_mem()) }).collect(),
         root: root.clone(),
         dir_counter: Rc::new(std::cell::Cell::new(0)),
-        server: Rc::new(RefCell::new(ServerWorld::new(sc.srv_seed, sc.urgency_mode, false))),
+        server: Rc::new(RefCell::new({
+            let mut sw = ServerWorld::new(sc.srv_seed, sc.urgency_mode, false);
+            // raw protocol calls carry arbitrary bytes, not version documents / snapshots
+            sw.check_format = !raw_calls;
+            sw.check_snapshots = !raw_calls;
+            sw
+        })),
         pc: vec![0; n],
         ledger: vec![Vec::new(); n],
         violations: Vec::new(),
@@ -1023,6 +1166,11 @@ fn fork(w: &W) -> W {
             })
             .collect(),
         root: wb.root.clone(),
+        backend: wb.backend.as_ref().map(|b| {
+            let k = wb.dir_counter.get() + 1;
+            wb.dir_counter.set(k);
+            Rc::new(b.fork(&wb.root.as_ref().unwrap().0.join(format!("backend-f{k}"))))
+        }),
         dir_counter: wb.dir_counter.clone(),
         server: Rc::new(RefCell::new(server_copy)),
         pc: wb.pc.clone(),
@@ -1091,7 +1239,9 @@ fn run_scripted(w: &W, faults: &[(usize, usize, u32, Decision)], only: Option<&[
             w.borrow_mut().violation("liveness", "scripted-phase-steps", "scripted phase did not finish within 200000 scheduler steps".into());
             break;
         }
-        let in_sync: Vec<usize> = runnable.iter().copied().filter(|i| parked[*i].map(|l| l.starts_with("srv.")).unwrap_or(false)).collect();
+        // atomic mode: a node that is inside an action (parked at a server request, an object-store
+        // request, ...) runs on until it is between actions again
+        let in_sync: Vec<usize> = runnable.iter().copied().filter(|i| parked[*i].map(|l| l != "act").unwrap_or(false)).collect();
         let pick = if atomic && !in_sync.is_empty() {
             in_sync[0]
         } else {
@@ -1173,7 +1323,13 @@ fn final_phase_upto(w: &W, n: usize) -> bool {
     let mut reps: Vec<(Replica<SimStorage>, Box<dyn Server>)> = Vec::new();
     for i in 0..n {
         match exec::block_on(simstorage::open_sim(&stores[i], false)) {
-            Ok(st) => reps.push((Replica::new(st), Box::new(SimServer { node: i, world: srv.clone() }) as Box<dyn Server>)),
+            Ok(st) => match exec::block_on(open_server(w, i)) {
+                Ok(server) => reps.push((Replica::new(st), server)),
+                Err(e) => {
+                    w.borrow_mut().violation("server.open", "final-phase", format!("node {i}: cannot open its server handle: {e:#}"));
+                    return false;
+                }
+            },
             Err(e) => {
                 w.borrow_mut().violation("storage.open", "final-phase", format!("node {i}: cannot open its store: {e:#}"));
                 return false;
@@ -1235,6 +1391,46 @@ fn history_oracles(w: &W) {
         }
     }
     conservation(&mut wb);
+}
+
+/// A fresh handle on the real backend re-reads the whole chain; the proxy compares each reply
+/// with the mirror (ids, parents, bytes) and the end of the chain must be the end.
+fn backend_audit(w: &W) {
+    exec::with_ctx(|c| c.faults.clear());
+    let n = w.borrow().sc.nodes;
+    let handle = exec::block_on(open_server(w, n.saturating_sub(1)));
+    let mut server = match handle {
+        Ok(s) => s,
+        Err(e) => {
+            w.borrow_mut().violation("server.open", "audit", format!("cannot open a fresh handle: {e:#}"));
+            return;
+        }
+    };
+    let parents: Vec<(Uuid, Uuid)> = {
+        let wb = w.borrow();
+        let sw = wb.server.borrow();
+        sw.chain.versions.iter().skip(sw.chain.discarded_before).map(|v| (v.parent, v.id)).collect()
+    };
+    let latest = w.borrow().server.borrow().chain.latest;
+    for (p, id) in parents {
+        match exec::block_on(server.get_child_version(p)) {
+            Ok(taskchampion::server::GetVersionResult::Version { .. }) => {}
+            Ok(_) => {
+                w.borrow_mut().violation("protocol.audit", "version-missing", format!("a fresh handle cannot retrieve accepted version {} (child of {})", model::short(&id), model::short(&p)));
+                return;
+            }
+            Err(e) => {
+                w.borrow_mut().violation("protocol.audit", "error", format!("a fresh handle fails to read the child of {}: {e:#}", model::short(&p)));
+                return;
+            }
+        }
+    }
+    if let Ok(taskchampion::server::GetVersionResult::Version { version_id, .. }) = exec::block_on(server.get_child_version(latest)) {
+        if !latest.is_nil() || w.borrow().server.borrow().chain.versions.is_empty() {
+            w.borrow_mut().violation("protocol.audit", "extra-version", format!("the backend has a child {} of the latest version {}", model::short(&version_id), model::short(&latest)));
+        }
+    }
+    w.borrow_mut().probe("backend.audited");
 }
 
 fn parse_scenario(scv: &Value) -> Result<Scenario, RunResult> {
@@ -1302,6 +1498,9 @@ pub fn run(scv: &Value, want_log: bool) -> RunResult {
     } else {
         run_scripted(&w, &sc.faults, None);
     }
+    if sc.backend != 0 && !has_violations(&w) {
+        backend_audit(&w);
+    }
     if !sc.no_final && !has_violations(&w) && final_phase(&w) {
         history_oracles(&w);
         if sc.check == "C20" {
@@ -1315,6 +1514,7 @@ pub fn run(scv: &Value, want_log: bool) -> RunResult {
         }
     }
     let probe: &[&str] = match sc.check.as_str() {
+        "C08" => &["srv.add_version.rejected", "srv.reopened"],
         "C15" => &["ws.rebuild_checked"],
         "C19" => &["edit.sessions"],
         "C20" => &["expire.purged"],
@@ -1389,16 +1589,33 @@ pub fn run_sweep(scv: &Value, want_log: bool) -> RunResult {
         }
     }
     w.borrow_mut().probe("sweep.actions");
+    let inside_backend = sc.check == "C11";
+    let mut points = points;
+    if inside_backend {
+        points.retain(|p| p.1.starts_with("os.") || p.1.starts_with("fp."));
+    }
+    if sc.sweep_max > 0 && points.len() > sc.sweep_max as usize {
+        let mut prng = Rng::new(mix(sc.seed, "sweep-sample", 0));
+        prng.shuffle(&mut points);
+        points.truncate(sc.sweep_max as usize);
+        points.sort();
+    }
     'sweep: for (ord, label) in points {
         if label == "act" {
             continue;
         }
-        for kind in [Decision::FailBefore, Decision::FailAfter, Decision::Crash] {
+        // C11 interrupts the steps inside the server backend only (object-store requests,
+        // failpoints between database statements / git commands / file writes)
+        if inside_backend && !(label.starts_with("os.") || label.starts_with("fp.")) {
+            continue;
+        }
+        let kinds: &[Decision] = if label.starts_with("fp.") { &[Decision::FailBefore] } else { &[Decision::FailBefore, Decision::FailAfter, Decision::Crash] };
+        for &kind in kinds {
             let c = fork(&w);
             set_single_script(&c, v, Some(action.clone()), 50);
             run_scripted(&c, &[(v, 0, ord, kind)], Some(&[v]));
             evals += 1;
-            let tag = format!("{label}/{}", kind.name());
+            let tag = if sc.backend != 0 { format!("{}:{label}/{}", crate::fam_d::backend_name(sc.backend), kind.name()) } else { format!("{label}/{}", kind.name()) };
             w.borrow_mut().probe("sweep.points");
             if !has_violations(&c) {
                 let st = simstorage::read_store(&c.borrow().stores[v]);
@@ -1519,6 +1736,8 @@ pub fn gen_c04(seed: u64, i: u64, thorough: bool) -> Value {
         sqlite: false,
         ts_unit_ms: *rng.pick(&[0u32, 0, 0, 250, 100, 1]),
         kill_budget: 0,
+        sweep_max: 0,
+        backend: 0,
     };
     serde_json::to_value(sc).unwrap()
 }
@@ -1567,6 +1786,8 @@ pub fn gen_c05(seed: u64, i: u64, _thorough: bool) -> Value {
         sqlite: false,
         ts_unit_ms: 0,
         kill_budget: 0,
+        sweep_max: 0,
+        backend: 0,
     };
     serde_json::to_value(sc).unwrap()
 }
@@ -1615,6 +1836,8 @@ pub fn gen_c07(seed: u64, i: u64, _thorough: bool) -> Value {
         sqlite: false,
         ts_unit_ms: 0,
         kill_budget: 0,
+        sweep_max: 0,
+        backend: 0,
     };
     serde_json::to_value(sc).unwrap()
 }
@@ -1679,6 +1902,8 @@ pub fn gen_c12(seed: u64, i: u64, thorough: bool) -> Value {
         sqlite: false,
         ts_unit_ms: *rng.pick(&[0u32, 0, 0, 250, 100, 1]),
         kill_budget: 0,
+        sweep_max: 0,
+        backend: 0,
     };
     serde_json::to_value(sc).unwrap()
 }
@@ -1727,6 +1952,8 @@ pub fn gen_c14(seed: u64, i: u64, _thorough: bool) -> Value {
         sqlite: false,
         ts_unit_ms: *rng.pick(&[0u32, 250, 100, 1]),
         kill_budget: 0,
+        sweep_max: 0,
+        backend: 0,
     };
     serde_json::to_value(sc).unwrap()
 }
@@ -1792,6 +2019,8 @@ pub fn gen_c15(seed: u64, i: u64, _thorough: bool) -> Value {
         sqlite: false,
         ts_unit_ms: 0,
         kill_budget: 0,
+        sweep_max: 0,
+        backend: 0,
     };
     serde_json::to_value(sc).unwrap()
 }
@@ -1883,6 +2112,8 @@ pub fn gen_c20(seed: u64, i: u64, _thorough: bool) -> Value {
         sqlite: false,
         ts_unit_ms: 0,
         kill_budget: 0,
+        sweep_max: 0,
+        backend: 0,
     };
     serde_json::to_value(sc).unwrap()
 }
@@ -1979,6 +2210,8 @@ pub fn gen_c19(seed: u64, i: u64, _thorough: bool) -> Value {
         sqlite: false,
         ts_unit_ms: 0,
         kill_budget: 0,
+        sweep_max: 0,
+        backend: 0,
     };
     serde_json::to_value(sc).unwrap()
 }
@@ -2363,6 +2596,8 @@ pub fn gen_c06(seed: u64, i: u64, thorough: bool) -> Value {
         sqlite: true,
         ts_unit_ms: 0,
         kill_budget: if thorough { 6 } else if rng.chance(1, 3) { 2 } else { 0 },
+        sweep_max: 0,
+        backend: 0,
     };
     serde_json::to_value(sc).unwrap()
 }
@@ -2671,6 +2906,8 @@ pub fn gen_c03(seed: u64, i: u64, _thorough: bool) -> Value {
         sqlite: false,
         ts_unit_ms: *rng.pick(&[0u32, 0, 0, 250, 100, 1]),
         kill_budget: 0,
+        sweep_max: 0,
+        backend: 0,
     };
     serde_json::to_value(sc).unwrap()
 }
@@ -2938,6 +3175,8 @@ pub fn gen_c01(seed: u64, i: u64, thorough: bool) -> Value {
         sqlite: false,
         ts_unit_ms: *rng.pick(&[0u32, 0, 0, 250, 100, 1]),
         kill_budget: 0,
+        sweep_max: 0,
+        backend: 0,
     };
     serde_json::to_value(sc).unwrap()
 }
@@ -2979,6 +3218,8 @@ pub fn gen_c02(seed: u64, i: u64, _thorough: bool) -> Value {
         sqlite: false,
         ts_unit_ms: *rng.pick(&[0u32, 0, 0, 250, 100, 1]),
         kill_budget: 0,
+        sweep_max: 0,
+        backend: 0,
     };
     serde_json::to_value(sc).unwrap()
 }
